@@ -453,7 +453,7 @@ def fixed_size(spec, bit=False):
 def greedy(spec):
     """reads to the end of its stream (so only valid in tail position of a delimited region)"""
     k = spec[0]
-    if k in ("gbytes", "gstr", "grange", "nullstrip", "xor", "rol", "compressed", "terminated", "optional"):
+    if k in ("gbytes", "gstr", "grange", "nullstrip", "xor", "rol", "compressed", "terminated", "optional", "offsettedend"):
         return True
     if k == "nullterm":
         return not spec[5]
